@@ -113,7 +113,7 @@ PROPS = {
             ]},
     'C04': {'groups': ['compile', 'runone', 'cont', 'heap'], 'search': 'search_tail',
             'kani': [
-                {'harness': 'vcell_accessors', 'file': 'src/vm/vcell.rs', 'kind': 'complete', 'timeout': 600, 'what': 'VCell::as_ptr/as_argc/as_car/as_cdr/as_bp/as_ep/as_ip/is_pair answer Ok(payload) exactly on the matching variant (their contracts are assumed on the Verus side)'},
+                {'harness': 'vcell_accessors', 'file': 'src/vm/vcell.rs', 'kind': 'complete', 'timeout': 600, 'what': 'VCell::as_ptr/as_argc/as_car/as_cdr/as_bp/as_ep/as_ip/is_pair answer Ok(payload) exactly on the matching variant (a second, independent check: Verus verifies the same contracts in unit vcell since pre-rewrite str_consts; only is_nil is still assumed on the Verus side)'},
             ],
             'assumptions': [
                 'scope: the compile-time half of C04 only -- which call instruction the compiler emits.  Decided: an application compiled with flag `tail` ends in TCALL iff the flag is set (compile_runtime_procedure_application); both branches of `if` inherit the flag of the whole form (compile_if); the dispatchers compile_expression / compile_procedure_application hand the flag through to `if` forms and applications; compile() hands it to the macro-expanded expression',
@@ -121,7 +121,7 @@ PROPS = {
                 'eval (builtin/procedure.rs): the thunk built for the datum is compiled with the flag set -- if the macro-expanded datum is an application, the code object eval returns (to be entered by the re-dispatched call) ends in TCALL; Ret; pop_argc / Vm::pop / Heap::get_as_cell / Stack::push carry assumed contracts over an opaque stack (popped_value / stack_popped: what Vm::pop answers and what is left, as uninterpreted functions of heap and stack); every compile function is also proved to leave the machine registers alone (eval moves ip back afterwards)',
                 'run-time half, group runone: the TCALL arm of the real run_one is proved to rebuild the frame in place (frame_replaced): after a tail call to a closure or lambda the stack pointer is (first argument slot of the old frame) + argc + 2 -- independent of the previous stack depth --, the saved %ep / %ip / %bp of the caller are the ones of the replaced frame, the new arguments sit in order above the frame base, nothing below the frame changes, the heap is untouched; both the equal-argc in-place copy and the different-argc rebuild satisfy the same postcondition',
                 'the run_one contract is scoped by precondition to states whose next opcode is CALL, TCALL, ENTER, RET or VARARG (every other arm is then unreachable) and whose frame layout satisfies tcall_frame (bp + 5 + argc <= sp, frame_argc <= bp, stack shorter than 2^61 slots): run_count, the caller, is verified in group run against an assumed run_one and does not establish this precondition -- it is an assumption about the states compiled code reaches; read_opcode (moves %ip.1 only; verified in this group since the last day: next_op is now DEFINED as the opcode cell of the current code object at %ip.1, over the assumed one-line reads Lambda::get / VCell::as_opcode), Heap::get (assumed here as heap_deref; unit heap verifies its real body over the concrete view), VCell::as_bp (Kani-checked) carry contracts; Stack::get / get_mut / get_offset / get_offset_mut / get_sp / get_sp_mut / push are verified (unit stack); usize is 64 bits (global size_of usize == 8)',
-                'the same run_one contract covers CALL (pushes exactly %ep and the return address), ENTER (pushes %bp, new %bp addresses the last argument), RET (drops the whole frame, restores %ep/%ip/%bp from it, writes nothing) and VARARG (optional arguments replaced by one slot: req + 1 arguments whatever was passed; needs `a variadic code object has at least one formal`); VCell::as_argc / as_bp / as_ep / as_ip: assumed on the Verus side, checked on the real code by the complete Kani harness vcell_accessors; Vm::lambda is verified to answer the Lambda cell %ip.0 designates, under the precondition code_ready (that cell is a code object: it panics otherwise, which compiled code never causes -- part of the scoping precondition call_ready of run_one); Vm::pop is verified in this group (the popped cell read through the heap, one slot popped, nothing else touched) against Heap::get_at_index, which like Heap::get is assumed to answer what the pointer designates and assumed total (a dangling pointer makes it panic)', 'apply (builtin/procedure.rs, group cont): hands control back to the dispatching CALL / TCALL (%ip.1 - 1) with the procedure as its result and exactly the spread arguments on the stack -- the k leading arguments moved down over the procedure slot, then pointers to the cars of the m list cells (walked through the heap), then ArgumentCount(k + m); nothing below is touched, no slot is left behind; requires the argument count on the stack to be smaller than the stack pointer (true after CALL / TCALL); Vm::pop assumed', 'call/cc handing control back is decided under C05 (same group)', 'the stack never has more than isize::MAX / 2 slots (axiom_stack_len: Vec allocation limit, VCell larger than one byte) -- used for i64 index arithmetic and for `can always double`', 'NOT decided at run time: the heap objects VARARG / ENTER build; the cond / case / and / or / when / unless / let-family forms are prelude.scm macros over `if` and `lambda`, their expansion is not under contract',
+                'the same run_one contract covers CALL (pushes exactly %ep and the return address), ENTER (pushes %bp, new %bp addresses the last argument), RET (drops the whole frame, restores %ep/%ip/%bp from it, writes nothing) and VARARG (optional arguments replaced by one slot: req + 1 arguments whatever was passed; needs `a variadic code object has at least one formal`); VCell::as_argc / as_bp / as_ep / as_ip: verified by Verus in unit vcell (their `&str` const mentions routed through external_body functions returning those consts: pre-rewrite str_consts) and checked a second time on the untouched text by the complete Kani harness vcell_accessors; Vm::lambda is verified to answer the Lambda cell %ip.0 designates, under the precondition code_ready (that cell is a code object: it panics otherwise, which compiled code never causes -- part of the scoping precondition call_ready of run_one); Vm::pop is verified in this group (the popped cell read through the heap, one slot popped, nothing else touched) against Heap::get_at_index, which like Heap::get is assumed to answer what the pointer designates and assumed total (a dangling pointer makes it panic)', 'apply (builtin/procedure.rs, group cont): hands control back to the dispatching CALL / TCALL (%ip.1 - 1) with the procedure as its result and exactly the spread arguments on the stack -- the k leading arguments moved down over the procedure slot, then pointers to the cars of the m list cells (walked through the heap), then ArgumentCount(k + m); nothing below is touched, no slot is left behind; requires the argument count on the stack to be smaller than the stack pointer (true after CALL / TCALL); Vm::pop assumed', 'call/cc handing control back is decided under C05 (same group)', 'the stack never has more than isize::MAX / 2 slots (axiom_stack_len: Vec allocation limit, VCell larger than one byte) -- used for i64 index arithmetic and for `can always double`', 'NOT decided at run time: the heap objects VARARG / ENTER build; the cond / case / and / or / when / unless / let-family forms are prelude.scm macros over `if` and `lambda`, their expansion is not under contract',
                 'the contract speaks about branches that are themselves procedure calls (rt_app) or `if` forms; deeper nesting follows by the same contracts applied to the inner form, but the induction over the datum is not stated as a lemma',
                 'Cell accessor contracts (car, cdr, is_pair, is_nil, is_list, collect_vec, clone) assumed from their one-line bodies in cell.rs; Lambda::emit and Lambda::argc are verified (unit lambda; a Vec holds at most isize::MAX elements: axiom_vec_len); Lambda::binding_location assumed to answer an argument index below the argument count; core identity From<T> for T assumed (axiom_into_self); str extensionality (axiom_str_ext); a datum has fewer than 2^64 pairs (axiom_spine_fits, used for the argument counter)',
                 'executable rewrite inside compile_if: the slice-pattern match is desugared to length tests and indexing (Verus has no slice patterns)',
@@ -135,7 +135,7 @@ PROPS = {
             ]},
     'C14': {'groups': ['builtins', 'heap', 'vector'], 'search': 'search_list',
             'kani': [
-                {'harness': 'vcell_accessors', 'file': 'src/vm/vcell.rs', 'kind': 'complete', 'timeout': 600, 'what': 'VCell::as_ptr/as_argc/as_car/as_cdr/as_bp/as_ep/as_ip/is_pair answer Ok(payload) exactly on the matching variant (their contracts are assumed on the Verus side)'},
+                {'harness': 'vcell_accessors', 'file': 'src/vm/vcell.rs', 'kind': 'complete', 'timeout': 600, 'what': 'VCell::as_ptr/as_argc/as_car/as_cdr/as_bp/as_ep/as_ip/is_pair answer Ok(payload) exactly on the matching variant (a second, independent check: Verus verifies the same contracts in unit vcell since pre-rewrite str_consts; only is_nil is still assumed on the Verus side)'},
             ],
             'assumptions': [
                 'scope: the vector procedures vector, make-vector, vector-length, vector-ref, vector-set!, vector-fill!, vector->list, list->vector, vector-copy (start index), vector-copy! and the pair/list procedures cons, car, cdr, set-car!, set-cdr!, list-ref, list-tail, reverse and the list-copying helper clone_list that append uses (a fresh chain of allocated pairs with the very car fields of the argument, ending in a fresh () cell; nothing allocated before changes); append itself is under contract too (its `for _ in 0..(argc - 1)` loop with a `continue` is pre-rewritten into the equivalent while loop, which Verus accepts): no allocated cell changes, (append x) is x itself, (append () y) is y itself, and for any number of arguments that are () or proper lists the result is a path of allocated pairs with the car fields of the arguments in call order that ends in the last argument itself (shared, not copied); it requires what collector soundness gives for reachable data (arguments designate allocated cells, list spines point at allocated cells); equal? and the library procedures written in Scheme (length, map, memq, assq, ...) are NOT under contract', 'vector->list / reverse build fresh lists: list_of / plist say every pair of the result is an allocated cell, the cars designate the very elements (a pointer is kept, another value sits in an allocated cell holding it), the order is right, the list ends in (), and heap_ext says no cell that was allocated before is changed; reverse requires that the cdr fields along its argument designate allocated cells (a reachable list never points into free cells: collector soundness, C03) and, like list->vector, does not terminate on a circular list',
